@@ -897,7 +897,7 @@ package quickfix
 //@   trusted
 //@   requires s != nil
 //@   ensures s.messageOut == old(s.messageOut) && s.application == old(s.application) && s.application.#logouts == old(s.application.#logouts) && s.store == old(s.store) && s.log == old(s.log) && s.messageEvent == old(s.messageEvent) && !closed(s.messageEvent) && (s.notifyOnInSessionTime != nil ==> !closed(s.notifyOnInSessionTime))
-//@   modifies s.State, s.pendingStop, s.stopped, s.notifyOnInSessionTime, s.toSend, s.toSend[*], s.messageOut, s.messageIn, s.sentReset, s.store.#S, s.store.#T, s.store.#R, s.application.#logouts, s.application.#n, s.application.#logons, s.HeartBtInt, s.targetDefaultApplVerID, heap Gh.chan.closed, heap Gh.chan.sent, heap E.quickfix.Tag, heap H.quickfix.TagValue.*, fresh E.sl.uint8, fresh E.uint8, fresh H.quickfix.Message.*, fresh H.quickfix.FieldMap.*, fresh H.quickfix.tagSort.*, fresh MH.quickfix.Tag.quickfix.field, fresh H.bytes.Buffer.*, fresh H.sync.RWMutex.*, fresh H.sync.Mutex.*, fresh H.time.Time.*, fresh H.quickfix.FIXUTCTimestamp.*, fresh H.quickfix.messageRejectError.*
+//@   modifies s.State, s.stopped, s.notifyOnInSessionTime, s.toSend, s.toSend[*], s.messageOut, s.messageIn, s.sentReset, s.store.#S, s.store.#T, s.store.#R, s.application.#logouts, s.application.#n, s.application.#logons, s.HeartBtInt, s.targetDefaultApplVerID, heap Gh.chan.closed, heap Gh.chan.sent, heap E.quickfix.Tag, heap H.quickfix.TagValue.*, fresh E.sl.uint8, fresh E.uint8, fresh H.quickfix.Message.*, fresh H.quickfix.FieldMap.*, fresh H.quickfix.tagSort.*, fresh MH.quickfix.Tag.quickfix.field, fresh H.bytes.Buffer.*, fresh H.sync.RWMutex.*, fresh H.sync.Mutex.*, fresh H.time.Time.*, fresh H.quickfix.FIXUTCTimestamp.*, fresh H.quickfix.messageRejectError.*
 
 //@ func (s *session) onDisconnect [C07,C08]
 //@   requires @sess sessfull(s)
@@ -925,6 +925,7 @@ package quickfix
 //@   ensures @logout session.application.#logouts == old(session.application.#logouts) + (!stconnected(nextState) && old(stconnected(session.State)) && old(stnotifies(session)) ? 1 : 0)
 //@   ensures @gone !stconnected(nextState) && old(stconnected(session.State)) ==> session.messageOut == nil
 //@   ensures @kept stconnected(nextState) ==> session.messageOut == old(session.messageOut)
+//@   ensures @pend sm.pendingStop == old(sm.pendingStop)
 //@   ensures @quiet stconnected(nextState) ==> session.store == old(session.store) && session.store.#S == old(session.store.#S) && session.store.#T == old(session.store.#T) && session.store.#R == old(session.store.#R) && session.application == old(session.application) && session.application.#n == old(session.application.#n) && session.sessionEvent == old(session.sessionEvent)
 
 // Disconnected (the connection was lost): a connected state ends with the logout notification due and the connection
@@ -990,3 +991,17 @@ package quickfix
 //@   atcall sendLogon @initiator session.InitiateLogon
 //@   ensures @acceptor !session.InitiateLogon ==> sm.State is logonState && session.store.#S == old(session.store.#S) && session.store.#T == old(session.store.#T) && session.store.#R == old(session.store.#R)
 //@   ensures @nodelivery session.application.#n == old(session.application.#n)
+
+//@ iface sessionState.Stop(recv, session) [C08]
+//@   requires @sess sessfull(session)
+//@   requires @st stok(recv)
+//@   ensures @next result != nil && stok(result)
+//@   ensures @sess sessfull(session) && session.State == old(session.State)
+//@   freshonly Gh.chan.closed, H.quickfix.stateMachine.*
+//@   closedworld
+
+// Stop (a clean stop was requested): the state decides (a logged-on state sends Logout and waits for the answer)
+//@ func (sm *stateMachine) Stop [C08]
+//@   requires @sess sessfull(session) && sm == &session.stateMachine
+//@   requires @chan session.notifyOnInSessionTime != nil ==> !closed(session.notifyOnInSessionTime) && allocated(session.notifyOnInSessionTime)
+//@   ensures @pending sm.pendingStop || sm.stopped
